@@ -114,9 +114,34 @@ func GenTokens(r *rand.Rand) []GTok {
 	var out []GTok
 	n := 1 + r.Intn(3)
 	for i := 0; i < n; i++ {
+		if r.Intn(20) == 0 {
+			genChain(r, 8+r.Intn(5), &out)
+			continue
+		}
 		genStmt(r, 3, true, &out)
 	}
 	return out
+}
+
+// genChain produces a chain of `depth` nested statements closed at once: `a { b "v" { … x; } } }`.
+func genChain(r *rand.Rand, depth int, out *[]GTok) {
+	for d := 0; d < depth; d++ {
+		*out = append(*out, GTok{Text: kwPool[r.Intn(len(kwPool)-1)], Kind: "kw", Top: d == 0})
+		if (*out)[len(*out)-1].Text == "pattern" {
+			(*out)[len(*out)-1].Text = "p"
+		}
+		switch r.Intn(3) {
+		case 0:
+			*out = append(*out, GTok{Text: unqPool[r.Intn(len(unqPool))], Kind: "unq"})
+		case 1:
+			*out = append(*out, GTok{Text: "'v'", Kind: "sq"})
+		}
+		*out = append(*out, GTok{Text: "{", Kind: "lbrace"})
+	}
+	*out = append(*out, GTok{Text: "x", Kind: "kw"}, GTok{Text: ";", Kind: "semi"})
+	for d := depth - 1; d >= 0; d-- {
+		*out = append(*out, GTok{Text: "}", Kind: "rbrace", Top: d == 0})
+	}
 }
 
 func isUnq(k string) bool { return k == "kw" || k == "unq" || k == "plus" }
@@ -398,6 +423,77 @@ func LongLines(r *rand.Rand, thorough bool) []Case {
 				c.FaultOff, c.FaultClass = len(p)+t.off, t.class
 			}
 			out = append(out, c)
+		}
+	}
+	return out
+}
+
+// DeepAndRuns is a deterministic family for bounded buffers and depth counters: chains of nested blocks of
+// depth 1..40 whose closing braces stand back to back (nothing / a blank / a line feed / tab CR LF / a
+// comment between them), the same with one brace too few or too many, and long homogeneous runs of one
+// kind of token (`;`, `{`, `}`, `{}` blocks, `a;` statements, quoted strings, `+`-joined pieces, unquoted
+// words, undefined escapes) of 1..30 and 40, 60, 100 tokens, unseparated and blank-separated.
+func DeepAndRuns() []Case {
+	var out []Case
+	add := func(t string) { out = append(out, Case{Text: t, Stream: "deep_runs"}) }
+	seps := []string{"", " ", "\n", "\t\r\n", " /* c */ ", " // c\n"}
+	for depth := 1; depth <= 40; depth++ {
+		for si, sep := range seps {
+			var open, openArg strings.Builder
+			for d := 0; d < depth; d++ {
+				k := string(rune('a' + d%26))
+				open.WriteString(k + "{")
+				openArg.WriteString(k + " 'v" + k + "' {\n")
+			}
+			cl := strings.TrimSuffix(strings.Repeat("}"+sep, depth), sep)
+			add(open.String() + "x;" + cl)
+			add(openArg.String() + "x y;" + sep + cl + "\n")
+			if si < 3 {
+				add(open.String() + "x;" + cl + sep + "}")                           // one too many
+				add(open.String() + "x;" + strings.TrimSuffix(cl, "}"))              // one too few
+				add(open.String() + "x;" + cl + sep + "z" + sep + ";" + sep + "y{}") // more statements after the run
+				add(open.String() + "}" + sep + cl)                                  // empty innermost block
+			}
+		}
+	}
+	var lens []int
+	for n := 1; n <= 30; n++ {
+		lens = append(lens, n)
+	}
+	lens = append(lens, 40, 60, 100)
+	units := []struct{ pre, unit, join, post string }{
+		{"a{}", ";", "", ""},
+		{"a", ";", "", ""},
+		{"", "{", "", ""},
+		{"a{x;", "}", "", ""},
+		{"", "a{}", "", ""},
+		{"", "a;", "", ""},
+		{"a{", "b;", "", "}"},
+		{"x ", "\"s\"", "", ";"},
+		{"x ", "'s'", "+", ";"},
+		{"x ", "\"s\"", " + ", " { }"},
+		{"", "w", " ", ";"},
+		{"x \"", "\\q", "", "\";"},
+		{"pattern \"", "\\q", "", "\";"},
+		{"x ", "\"\\q\"", "+", ";"},
+		{"", "a 'b';", "", ""},
+		{"", "/**/", "", "a;"},
+	}
+	for _, u := range units {
+		for _, n := range lens {
+			for _, sep := range []string{"", " ", "\n"} {
+				j := u.join
+				if j == "" {
+					j = sep
+				} else if sep != "" {
+					j = sep + u.join + sep
+				}
+				parts := make([]string, n)
+				for i := range parts {
+					parts[i] = u.unit
+				}
+				add(u.pre + strings.Join(parts, j) + u.post)
+			}
 		}
 	}
 	return out
